@@ -44,6 +44,24 @@ add("C10", "vp_buf (+ libFuzzer target slice in the thorough tier)",
     "Trusted: the counting allocator (self-tested), pointer comparison, std's unsafe-precondition checks in the debug-assertion build.",
     "DESIGN.md §4 C10")
 
+add("C12", "vp_buf (+ libFuzzer target fork in the thorough tier)",
+    "schedule enumeration (all valid interleavings to a bounded length) + proptest schedules against an index-coded probe source",
+    "Every interleaving of the two branches of every length up to 16 (thorough 20) whose lead stays within the capacity, capacities 1..=4 (5), by_ref and by_rc, every such schedule up to length 9 (12) x every re-split point, plus random run-structured schedules of up to 400 pulls with capacity up to 64; after every pull: the frame returned is the branch's own k-th source frame, the probe was pulled max(pulls_A, pulls_B) times, pending_frames equals the lag. fork() over a non-empty ring buffer must panic.",
+    "Trusted: the probe source (frames encode their index). Schedules are orders of next() calls on one thread (the types are !Sync), which the harness owns completely.",
+    "DESIGN.md §4 C12")
+
+add("C13", "vp_buf (+ libFuzzer target bus in the thorough tier)",
+    "model-based testing: all operation sequences to a bounded depth + proptest histories against a position model, backlog observed through a cfg-guarded hook",
+    "Every applicable sequence of send / next(i) / drop(i) up to length 9 (thorough 11) over at most 3 live outputs (infinite and 3-frame source), plus random run-structured sequences of up to 300 operations over up to 6 outputs; after every operation: frame returned == source frame at the output's position, probe pulls == P, pending_frames == P - position, is_exhausted, and Bus::verif_backlog_len() == P - min live position (0 when none).",
+    "Trusted: the position model (15 lines), the probe source; the hook is a read-only accessor compiled only with --cfg rustaudio_dasp_verif.",
+    "DESIGN.md §4 C13")
+
+add("C14", "vp_buf",
+    "bounded-exhaustive enumeration of small configurations + proptest against a stream model with an instrumented source",
+    "Every capacity 1..=4 (thorough 5) x every valid (start, pre-fill) via Bounded::from_raw_parts x source lengths 0..=9 (12) x every string of up to 4 (5) operations over next() and next_frames().take(0..=capacity), each followed by an until_exhausted() drain; random cases with capacity up to 32 and 120 operations. Checked: every yielded frame is the next element of pre-fill ++ source ++ equilibrium, the probe's pull count jumps by exactly the capacity when and only when the buffer was empty, a partially drained batch leaves the rest, is_exhausted == buffer empty and source exhausted, drain length and padding < capacity.",
+    "Trusted: the queue model, the probe source.",
+    "DESIGN.md §4 C14")
+
 PENDING_REASON = "check not yet built in this round (design in DESIGN.md §4); nothing is claimed for it until its check is registered"
 
 def main():
